@@ -221,6 +221,16 @@ func Verif_C13_step() {
 		cnt[i] = verifChoose("cnt", r+2) - 1
 	}
 
+	// bound on the number of distinct ring positions of the pre- and post-state
+	// together (the orderings of these positions are the fork source)
+	room := verifParam("maxPositions")
+	for i, c := range cnt {
+		if c > 0 && i != y {
+			room -= c
+		}
+	}
+	verifAssume(room >= 0 && cnt[y] <= room)
+
 	h := verifBuild(r, nodes, cnt)
 	verifCheckState(h, nodes, cnt, "canonical ring")
 	g0, ok0 := h.Get(verifLookupKey)
@@ -235,12 +245,14 @@ func Verif_C13_step() {
 			verifReach("remove-member")
 		}
 	case 1:
+		verifAssume(r <= room)
 		h.Add(nodes[y])
 		ncnt[y] = r // "adds h.replicas virtual nodes"
 	case 2:
 		w := verifInt("weight")
 		verifAssume(w >= 0)
 		verifAssume(w <= TopWeight)
+		verifAssume(r*w <= room*TopWeight) // bound: the weight's share of the replicas fits the position bound
 		h.AddWithWeight(nodes[y], w)
 		got := verifOwned(h, nodes, y)
 		// weight is a percentage of the replicas; the statement fixes no rounding
@@ -252,8 +264,11 @@ func Verif_C13_step() {
 		ncnt[y] = got
 	case 3:
 		n := verifInt("n")
-		verifAssume(n >= -1)
+		verifAssume(n >= 0)
 		verifAssume(n <= r+1)
+		if room < r {
+			verifAssume(n <= room) // bound: the position bound (no restriction when all r fit)
+		}
 		h.AddWithReplicas(nodes[y], n)
 		want := n // "at most h.replicas"
 		if want < 0 {
